@@ -125,8 +125,10 @@ PROPERTIES = {
                  "trip on every field, BYE source list decoding, header-extension pack/unpack shape facts, SDES parsing (shape, "
                  "ValueError only), NACK parsing: every listed number is a 16-bit sequence number, every packet id is listed and "
                  "for the first and last mask bit the denoted number (pid + bit + 1 mod 2^16) is listed, at most 17 per entry. "
-                 "HeaderExtensionsMap.set hands pack_header_extensions, for each fixed-size extension, a value of exactly the size "
-                 "HeaderExtensionsMap.get accepts (3/3/1/2 bytes) under ids in 1..255 and raises at most ValueError for in-range values. "
+                 "HeaderExtensionsMap.set hands pack_header_extensions exactly one entry per value that is set and has a non-zero id "
+                 "(nothing left out, nothing twice), ids in 1..255, each fixed-size extension with exactly the size "
+                 "HeaderExtensionsMap.get accepts (3/3/1/2 bytes) and with the value in the encoding get decodes (u24, 24-bit two's "
+                 "complement, V bit + level, u16); it raises at most ValueError for in-range values. "
                  "Reduced: RtpPacket/compound RtcpPacket serialise/parse, NACK serialisation and the 14 middle mask bits, RTX "
                  "are not under contract.",
         "note": "Round trip is proved as composition lemmas (harnesses) over the callee contracts; wire-range "
@@ -134,7 +136,7 @@ PROPERTIES = {
         "design_ref": "DESIGN.md 4.7, 9",
         "trusted_base": COMMON,
         "not_decided": ["RtpPacket.serialize/parse round trip", "RtcpPacket compound round trip", "NACK serialisation and full set equality (F-11 fixed in parse and __bytes__; only parse is under contract)",
-                        "RTX wrap/unwrap", "HeaderExtensionsMap value round trip (set: sizes, ids and no-raise are decided, F-10 found and fixed; the decoded values are not compared with the encoded ones, and that a configured extension is present at all is not decided)"],
+                        "RTX wrap/unwrap", "HeaderExtensionsMap value round trip (set: entry count, ids, sizes, encoded values of the four fixed-size extensions and no-raise are decided, F-10 found and fixed; get's decoded values and the text extensions mid/rid are not compared end to end)"],
     },
     "C08": {
         "claim": "Proof of the SCTP chunk and parameter codecs function by function: DATA chunk serialise/parse layout and "
